@@ -37,6 +37,9 @@ func storeVar(name string) efivar.Efivar {
 		return efivar.Dbx
 	}
 	g := ordGUID
+	if name == "Ord0" { // an ordinary variable declared without attributes (the zero value of Efivar.Attributes)
+		return efivar.Efivar{Name: name, GUID: &g}
+	}
 	return efivar.Efivar{Name: name, GUID: &g, Attributes: attributes.EFI_VARIABLE_NON_VOLATILE | attributes.EFI_VARIABLE_BOOTSERVICE_ACCESS | attributes.EFI_VARIABLE_RUNTIME_ACCESS}
 }
 
@@ -226,13 +229,15 @@ func c12Gen(c *Ctx) {
 		hx(encodeList(tX509, nil, len(u.data[7])+16, [][2][]byte{{u.owners[0], u.data[7]}})),
 	}
 	raws := []string{"-", "01", hx(randBytes(c, 3)), hx(randBytes(c, 40)), hx(randBytes(c, 300))}
-	vars := []string{"PK", "KEK", "db", "dbx", "OrdA", "OrdB"}
+	vars := []string{"PK", "KEK", "db", "dbx", "OrdA", "OrdB", "Ord0"}
 	for i := 0; i < c.N(150, 10000) && c.NFailures() < 6; i++ {
 		n := 2 + c.Rng.Intn(c.N(9, 29))
 		var ops []interface{}
 		for j := 0; j < n; j++ {
 			v := vars[c.Rng.Intn(len(vars))]
-			if c.Rng.Intn(3) != 0 && j > 0 { // stay on few variables so that shrink/grow sequences happen
+			if i%5 == 4 { // every fifth history stays on the ordinary variables
+				v = []string{"Ord0", "OrdA", "Ord0", "OrdB"}[c.Rng.Intn(4)]
+			} else if c.Rng.Intn(3) != 0 && j > 0 { // stay on few variables so that shrink/grow sequences happen
 				v = vars[c.Rng.Intn(2)*2+c.Rng.Intn(2)]
 				if c.Rng.Intn(2) == 0 {
 					v = "db"
@@ -266,7 +271,7 @@ func c12Gen(c *Ctx) {
 
 func init() {
 	register("C12", &PropDef{
-		Rule:   "histories of 2..10 (thorough ..30) operations over {PK, KEK, db, dbx, two ordinary variables}: plain writes, signed updates (RSA-2048) and reads; values that grow, shrink (to the empty database / empty value) and repeat (5 databases from empty to two lists with certificates, 5 raw values from 0 to 300 bytes); empty and pre-populated stores (With(...)); run in a worker process because a write may end the process on an unrepaired tree. Every read is compared with the register oracle and the Lean store model. Non-trivial: at least two operations; distinct = distinct histories.",
+		Rule:   "histories of 2..10 (thorough ..30) operations over {PK, KEK, db, dbx, two ordinary variables, one ordinary variable declared with attribute mask 0}: plain writes, signed updates (RSA-2048) and reads; values that grow, shrink (to the empty database / empty value) and repeat (5 databases from empty to two lists with certificates, 5 raw values from 0 to 300 bytes); empty and pre-populated stores (With(...)); run in a worker process because a write may end the process on an unrepaired tree. Every read is compared with the register oracle and the Lean store model. Non-trivial: at least two operations; distinct = distinct histories.",
 		Assume: []string{"variables without the APPEND_WRITE attribute (the property's register semantics)", "payloads of signed secure-boot updates are well-formed signature databases"},
 		Eval:   c12Eval, Gen: c12Gen,
 	})
